@@ -22,9 +22,12 @@ type PropCfg struct {
 	// SweepFiles: pkgpath -> file base names whose functions get the safety sweep (C18/C19)
 	SweepFiles map[string][]string `json:"sweep_files,omitempty"`
 	// Kinds: if set, only obligations of these kinds (prefix match, e.g. "lock") count for the property
-	Kinds     []string `json:"kinds,omitempty"`
-	Note      string   `json:"note,omitempty"`
-	Undecided []string `json:"claimed_not_decided,omitempty"`
+	Kinds []string `json:"kinds,omitempty"`
+	// DescContains: with Kinds, also keep obligations (of any kind, tagged or not) whose clause text
+	// contains one of these strings (e.g. "held[": invariants about the lock state)
+	DescContains []string `json:"desc_contains,omitempty"`
+	Note         string   `json:"note,omitempty"`
+	Undecided    []string `json:"claimed_not_decided,omitempty"`
 }
 
 type Config struct {
@@ -211,6 +214,15 @@ func cmdCheck(args []string) int {
 			if len(pc.Kinds) > 0 && !strings.HasPrefix(ob.Kind, "cover") {
 				// a kind-restricted property takes only obligations explicitly tagged with it
 				keep := false
+				for _, dc := range pc.DescContains {
+					if strings.Contains(ob.Desc, dc) {
+						keep = true
+					}
+				}
+				if keep {
+					mine = append(mine, ob)
+					continue
+				}
 				if !hasTag(ob.Tags, *prop) {
 					continue
 				}
@@ -226,7 +238,7 @@ func cmdCheck(args []string) int {
 			mine = append(mine, ob)
 		}
 	}
-	timeout := 20
+	timeout := 40
 	if *tier == "thorough" {
 		timeout = 90
 	}
@@ -243,7 +255,7 @@ func cmdCheck(args []string) int {
 			first = append(first, ob)
 		}
 	}
-	solveAll(x.ctx, first, qdir, timeout, 8, *tier == "thorough")
+	solveAll(x.ctx, first, qdir, timeout, 6, *tier == "thorough")
 	var needPre []*Obligation
 	for _, ob := range first {
 		if ob.Kind == "cover-call-post" && ob.Result == "unsat" {
@@ -256,8 +268,22 @@ func cmdCheck(args []string) int {
 			}
 		}
 	}
+	// second chance: an obligation on which a solver ran out of time while the machine was busy with
+	// the other queries is retried alone (one at a time, twice the limit) before it is
+	// reported; at most 4 such retries per run (a change that breaks more than that is reported anyway)
+	var retry []*Obligation
+	for _, ob := range first {
+		if !strings.HasPrefix(ob.Kind, "cover") && ob.Result != "unsat" && ob.Result != "sat" && ob.AnyTimeout && !ob.Trivial && len(retry) < 4 && os.Getenv("GVERIF_NORETRY") == "" {
+			retry = append(retry, ob)
+		}
+	}
+	for _, ob := range retry {
+		ob.Retried = true
+		ob.AnyTimeout = false
+		solveAll(x.ctx, []*Obligation{ob}, filepath.Join(qdir, "retry"), timeout*2, 1, *tier == "thorough")
+	}
 	if len(needPre) > 0 {
-		solveAll(x.ctx, needPre, filepath.Join(qdir, "pre"), timeout, 8, false)
+		solveAll(x.ctx, needPre, filepath.Join(qdir, "pre"), timeout, 6, false)
 	}
 	solveS := time.Since(ts).Seconds()
 	if !*keep {
@@ -345,7 +371,9 @@ func cmdCheck(args []string) int {
 	sort.Strings(cfns)
 	for _, f := range cfns {
 		if !coverSat[f] {
-			undecided = append(undecided, f+": vacuous contract (no return is reachable under the precondition)")
+			// nothing after the entry of the function is reachable: every obligation in it would be
+			// discharged vacuously (contradictory precondition / invariant / assumed contract)
+			undecidedContract = append(undecidedContract, f+": vacuous (no return is reachable under the precondition and the assumed invariants)")
 		}
 	}
 	replayDir := filepath.Join(*verif, "replays", *prop)
